@@ -87,6 +87,7 @@ def dispatch(sim: Any, op: dict) -> Any:
             zo_path=zdir / op["path"],
             line_number=int(op["line"]),
             option_idx=op.get("option"),
+            binary_exts=[],
             verbose=0,
         )
         return run_action_open(cfg)
